@@ -167,7 +167,7 @@ def program_strategy(with_ctx=False, max_nodes=7, argdep=False):
                     acts.append({"a": "batch", "fn": draw(st.sampled_from(lower)),
                                  "ds": draw(st.lists(st.sampled_from([0, 1, 0]), min_size=1, max_size=3))})
                 elif kind == "file":
-                    acts.append({"a": "file", "name": draw(st.sampled_from(["r1", "r2", "missing"]))})
+                    acts.append({"a": "file", "name": draw(st.sampled_from(["r1", "r2", "missing", "q3%20report"]))})
                 else:
                     acts.append({"a": "res", "url": draw(st.sampled_from(["u1", "u2"]))})
             if argdep:
